@@ -25,11 +25,16 @@ fn main() {
         sets.push((vec![d.to_string()], false, false));
     }
     // ordered pairs
-    let small_special = ["CH1", "CH1?", "*RST", "*IDN?", "abc", "MY_val?", "MEASure:A", "MEASurement:Bb", "TRIGger", "TRIG_in", "TRIG1", "start", "stop", "ch1", "dev1"];
+    let small_special = ["CH1", "CH1?", "*RST", "*IDN?", "abc", "MY_val?", "MEASure:A", "MEASurement:Bb", "TRIGger", "TRIG_in", "TRIG1", "start", "stop", "ch1", "dev1", "ma\u{df}?", "MASS?"];
     let mut pair_pool: Vec<String> = if thorough { p2.clone() } else { p1.clone() };
     pair_pool.extend(small_special.iter().map(|s| s.to_string()));
     for a in &pair_pool {
         for b in &pair_pool {
+            // a declaration that no header can reach, declared twice: the property is silent
+            // (DESIGN.md 8.1, round 6: unspellable long forms)
+            if a == b && mc::prog::reachable_paths(&parse_decl(a)).is_empty() {
+                continue;
+            }
             sets.push((vec![a.clone(), b.clone()], false, false));
         }
     }
